@@ -116,6 +116,7 @@ produceLoop:
 		select {
 		case outJobs := <-outChan:
 			<-outChanAvailableTokens
+			verifhook.JSONConsumer(outJobs[0].line, len(outJobs))
 			for i := range outJobs {
 				out := outJobs[i]
 				if err := out.err; err != nil {
